@@ -3,6 +3,7 @@ import random
 import time
 
 import vlib
+import h3
 
 PROP = "C06"
 
@@ -76,13 +77,15 @@ def run(tier):
         p.push(scen[i:i + chunk], "gen%d" % (i // chunk), ["--isns", "2"])
     p.push(wl, "walk", ["--isns", "3"])
     p.confirm(v, sig)
+    # (6) the repository's own tcp_ip tests on the hooked build: every DataTracker call they make, validated by TLC (hook H3)
+    h3stats = h3.datatracker_part(PROP, v)
     rc = v.finish()
     allsc = scen + wl
     distinct = {vlib.canon_hash(s) for s in allsc if nontrivial(s)}
     cov = {
         "states": sum(r.distinct for r in mc) + p.stats["tlc_states"],
         "transitions": sum(r.generated for r in mc) + p.stats["tlc_generated"],
-        "traces_validated_against_impl": p.stats["executions"],
+        "traces_validated_against_impl": p.stats["executions"] + h3stats["executions"],
         "samples": [{"scenario": allsc[0]}, {"walk": wl[0]}] + p.samples,
         "evaluations": len(allsc),
         "distinct_nontrivial": len(distinct),
@@ -92,6 +95,7 @@ def run(tier):
                 "scenario is replayed on DataTracker, Flow (v4/v6 packets) and legacy TCPStream at ISNs incl. "
                 "2^32-k with the wrap inside the stream",
         "apalache": apa,
+        "repo_tests_trace_validation": h3stats,
         "model_checked": {"DataTrackerImpl": {"distinct": mc[1].distinct, "generated": mc[1].generated,
                                               "cfg": ("M=16, all 16 ISNs, L=5" if quick else "M=32, all 32 ISNs, L=7")},
                           "DataTrackerImpl[legacy TCPStream]": {"distinct": mc[2].distinct, "generated": mc[2].generated},
@@ -109,5 +113,9 @@ def run(tier):
 
 
 def replay(path):
+    import json
+    with open(path) as f:
+        if json.load(f)["replay"]["harness"] == "repo_tcp_ip_test":
+            return h3.datatracker_replay(PROP)
     p = vlib.Pipeline(PROP, "tcp_reasm", "tcp/ReassemblyTrace")
     return p.replay_file(path)
